@@ -462,13 +462,48 @@ def rule_r6(rep, repo):
     I = ("sym", "I")
     I1 = e5.mk_ac("+", [I, ("const", "1")])
     tables = [k for k, v in vg.env.items() if k in pre and isinstance(v, tuple) and v and v[0] == "setitem" and v[2] == I1]
-    if len(tables) != 1:
-        raise AnalysisError("unrecognised idiom: _generate_atomic_grid keeps no index table updated at [i + 1]")
-    t = tables[0]
-    init = pre[t]
     want_init = ("call", ("attr", ("glob", "np"), "zeros"),
                  (e5.mk_ac("+", [("call", ("glob", "len"), (("sym", G.params[1]),), ()), ("const", "1")]),),
                  (("dtype", ("glob", "int")),))
+    if not tables:
+        # second idiom: the sizes of the appended shells are collected in the loop and the table is
+        # built after it as zeros(n + 1, int) with [1:] = cumsum(sizes)
+        apps = [e for e in vg.effects if e[0] == "append"]
+        for st in body[body.index(loop) + 1:]:
+            if isinstance(st, ast.Return):
+                break
+            vg.stmt(st)
+        found = None
+        for k, v in vg.env.items():
+            if isinstance(v, tuple) and v and v[0] == "setitem" and v[2] == ("slice", ("const", "1"), None, None) and \
+                    v[3][0] == "call" and e5.show(v[3][1]) in ("np.cumsum", "numpy.cumsum") and len(v[3][2]) == 1:
+                found = (k, v)
+        if found is None:
+            raise AnalysisError("unrecognised idiom: _generate_atomic_grid keeps no shell index table (neither updated at "
+                                "[i + 1] in the loop nor built from the cumulative shell sizes after it)")
+        k, v = found
+        if v[1] == want_init:
+            rep.ok("R6.shell-index-table", "AtomGrid._generate_atomic_grid:length", where, e5.show(v[1], 60))
+        else:
+            rep.violation("R6.shell-index-table", cons, "length",
+                          f"the shell index table is initialised as {e5.show(v[1], 80)}: it must be integer zeros with "
+                          f"one more entry than shells", where)
+        sizes = v[3][2][0]
+        # sizes is a list appended once per shell with len(<what is appended to the point list>)
+        okk = isinstance(sizes, tuple) and sizes[0] == "appended" and sizes[1] in (("list", ()), ("glob", "list")) and \
+            any(sizes[2] == ("call", ("glob", "len"), (a[3],), ()) for a in apps)
+        if okk:
+            rep.ok("R6.shell-index-table", "AtomGrid._generate_atomic_grid:cumulative", where,
+                   f"indices[1:] = cumsum of {e5.show(sizes[2], 60)} collected per shell")
+        else:
+            rep.violation("R6.shell-index-table", cons, "cumulative",
+                          f"the shell index table is the cumulative sum of {e5.show(sizes, 110)}; it must accumulate the "
+                          f"number of points appended for each shell", where)
+        return
+    if len(tables) != 1:
+        raise AnalysisError("unrecognised idiom: _generate_atomic_grid keeps several index tables updated at [i + 1]")
+    t = tables[0]
+    init = pre[t]
     if init == want_init:
         rep.ok("R6.shell-index-table", "AtomGrid._generate_atomic_grid:length", where, e5.show(init, 60))
     else:
